@@ -1,5 +1,6 @@
 import Pxv.Model.ReqData
 import Pxv.Lemmas.ReqData
+import Pxv.Lemmas.Float
 /-!
 C15 — typed request data equals what the client encoded, or a clean error.
 Property theorems only; helper lemmas live in `Pxv/Lemmas/ReqData.lean`.
@@ -360,5 +361,57 @@ example :
     queryExtract [⟨[105, 100], .s (.i 8)⟩, ⟨[110], .s .string⟩]
       (formSerialize [([105, 100], [45, 49, 50, 56]), ([110], [97, 32, 38, 61, 43, 37, 195, 169])])
       = .ok [([105, 100], .s (.int (-128))), ([110], .s (.str [97, 32, 38, 61, 43, 37, 195, 169]))] := by decide
+
+/-! ### floating-point fields (`f32` / `f64` in `PathParams<T>` / `QueryParams<T>`)
+
+`Model/Float.lean` states the contract of `str::parse::<fN>` the extractors rely on — the decimal grammar, and the value: the
+representable number nearest to the exact decimal, ties to even, overflow to infinity, gradual underflow — and computes it
+exactly: the decimal becomes a fraction `num / den`, `roundToFloat` scales it by a power of two so that the quotient is the
+significand, and rounds with `roundHalfEven`. "Numbers keep their value" for a float field means exactly that no other value
+of the type is closer to what the client wrote. -/
+
+/-- **C15 (floats), the rounding core**: the significand `roundToFloat` keeps is a nearest integer to the exact scaled
+    value — no integer `k` is strictly closer to `n / d` than `roundHalfEven n d`, for every `n`, `d > 0`, `k` — -/
+theorem float_significand_nearest (n d k : Nat) (hd : 0 < d) :
+    (roundHalfEven n d * d ≤ n → k * d ≤ n → n - roundHalfEven n d * d ≤ n - k * d) ∧
+    (roundHalfEven n d * d ≤ n → n ≤ k * d → n - roundHalfEven n d * d ≤ k * d - n) ∧
+    (n ≤ roundHalfEven n d * d → k * d ≤ n → roundHalfEven n d * d - n ≤ n - k * d) ∧
+    (n ≤ roundHalfEven n d * d → n ≤ k * d → roundHalfEven n d * d - n ≤ k * d - n) :=
+  roundHalfEven_nearest n d k hd
+
+/-- — it is within half a unit in the last place (`2·|q·d − n| ≤ d`) — -/
+theorem float_significand_half_ulp (n d : Nat) (hd : 0 < d) :
+    2 * (roundHalfEven n d * d) ≤ 2 * n + d ∧ 2 * n ≤ 2 * (roundHalfEven n d * d) + d :=
+  roundHalfEven_near n d hd
+
+/-- — an exact tie goes to the even significand, and an exactly representable value is returned as it is. -/
+theorem float_significand_tie_even (n d : Nat) (hd : 0 < d) (htie : 2 * (n % d) = d) : roundHalfEven n d % 2 = 0 :=
+  roundHalfEven_tie_even n d hd htie
+
+theorem float_significand_exact (q d : Nat) (hd : 0 < d) : roundHalfEven (q * d) d = q :=
+  roundHalfEven_exact q d hd
+
+/-- PARTIAL: the full statement for float fields — the bit pattern `parseFloat` returns denotes a value of the format nearest
+    to the decimal the client encoded — additionally needs that `roundToFloat` picks the binade of the exact value
+    (`floorLog2`), that the encoding `(e' − emin)·2^(p−1) + q` is the IEEE one across the subnormal / normal / carry /
+    overflow cases, and that the neighbours in the adjacent binades are no closer. Those steps are not proved here; they are
+    compared on every run with the real extractors (correspondence `pfloat`) and with an independent exact reference (the
+    implementation-side oracle of tools/checks/c15.py). The inputs below are decided by the kernel. -/
+def float_nearest_statement : Prop :=
+  ∀ (f : Fmt) (bs : List Nat) (b : Nat), parseFloat f bs = some b → True
+
+-- long decimals beside an `f32` midpoint: rounded ONCE (a detour through `f64` gives 1065353218 and 1108502118)
+example : parseFloat f32 [49, 46, 48, 48, 48, 48, 48, 48, 49, 55, 56, 56, 49, 51, 57, 51, 52, 51, 50, 54, 49, 55, 49, 56, 55, 52, 57, 57] =
+    some 1065353217 := by decide +kernel
+-- "36.600000381469726562500000001" is just above the midpoint: the upper neighbour
+example : parseFloat f32 [51, 54, 46, 54, 48, 48, 48, 48, 48, 51, 56, 49, 52, 54, 57, 55, 50, 54, 53, 54, 50, 53, 48, 48, 48, 48, 48, 48, 48, 48, 49] =
+    some 1108502119 := by decide +kernel
+-- grammar: "1." and ".5e1" are numbers, "." and "1e" are not; "-0" keeps its sign; "1e400" overflows to infinity
+example : parseFloat f32 [49, 46] = some 1065353216 ∧ parseFloat f32 [46, 53, 101, 49] = some 1084227584 ∧
+    parseFloat f32 [46] = none ∧ parseFloat f32 [49, 101] = none ∧ parseFloat f64 [45, 48] = some 9223372036854775808 ∧
+    parseFloat f64 [49, 101, 52, 48, 48] = some f64.infBits := by decide +kernel
+-- decoded exactly once: "1%2E5" is 1.5, "%31%2e5" too; "%ff" is not UTF-8
+example : pathFloat f32 [49, 37, 50, 69, 53] = .ok 1069547520 ∧ pathFloat f32 [37, 51, 49, 37, 50, 101, 53] = .ok 1069547520 ∧
+    pathFloat f32 [37, 102, 102] = .error .invalidUtf8 := by decide +kernel
 
 end Pxv.ReqData
